@@ -17,6 +17,22 @@
 //          vector.  Values: `void` | `i:<int>` | `d:<u64 bits>` | `s:<hex>`; `exc` when
 //          the interpreter threw.
 //
+//   genome <nrows> <ncats> { <key> <cats> <par-bits> <nargs> <arg row>* }*(nrows*ncats)  ninputs { nvals { <val> } }
+//       -> `c-hex cpp-hex mql-hex py-hex valid=<0|1> ; v ; v ...`
+//          the individual whose matrix genome_(row, category) holds exactly the given genes
+//          (row-major; the symbol of the gene at column c must have category c; the best locus
+//          is [0,0]; genes with the same symbol key and categories share ONE symbol object, as
+//          genes of a real population share the symbols of the symbol_set); built with the public API: i_mep(vector<gene>) for the last column,
+//          i_mep::replace(locus, gene) for every other locus.  `valid` = i_mep::is_valid().
+//          The individual is remembered (the last 16) for `team` and `stream`.
+//   team <k>
+//       -> `c-hex cpp-hex mql-hex py-hex` : `out::X_language << team<i_mep>` of the last k individuals
+//          (oldest first)
+//   stream <op>*
+//       -> one `flag:long:text-hex` per `print` op, applied to ONE std::ostringstream and the last
+//          individual.  ops: c cpp mql py list dump inline tree graphviz long short pf<n>
+//          (= out::print_format(print_format_t(n))) print fresh (a new stream)
+//
 // keys: `real::abs` ... (class names), `const:d:<hex text>`, `const:i:<hex text>`,
 //       `const:s:<hex text>`, `var:<hex name>:<index>`.
 // cats: comma separated category vector handed to the constructor.
@@ -30,6 +46,7 @@
 #include "kernel/gp/src/constant.h"
 #include "kernel/gp/src/variable.h"
 
+#include <deque>
 #include <functional>
 #include <map>
 #include <memory>
@@ -177,6 +194,26 @@ template<class M> std::string lang(M manip, const i_mep &ind)
   return ss.str();
 }
 
+struct built
+{
+  std::vector<std::unique_ptr<symbol>> syms;
+  i_mep ind;
+};
+
+std::deque<built> &store()
+{
+  static std::deque<built> s;
+  return s;
+}
+
+std::string four(const i_mep &ind)
+{
+  return verif::hex(lang(out::c_language, ind)) + " "
+         + verif::hex(lang(out::cpp_language, ind)) + " "
+         + verif::hex(lang(out::mql_language, ind)) + " "
+         + verif::hex(lang(out::python_language, ind));
+}
+
 }  // namespace
 
 int main()
@@ -256,6 +293,120 @@ int main()
           out += " ; " + r;
         }
         std::cout << out << "\n";
+      }
+      else if (t[0] == "genome" && t.size() >= 3)
+      {
+        std::size_t p = 1;
+        const std::size_t nr = std::stoul(t.at(p++));
+        const std::size_t nc = std::stoul(t.at(p++));
+        built b;
+        std::vector<gene> cells;
+        std::map<std::string, symbol *> interned;
+        bool bad = nr == 0 || nc == 0;
+        for (std::size_t k = 0; k < nr * nc && !bad; ++k)
+        {
+          const std::string key = t.at(p++);
+          const std::string cats_s = t.at(p++);
+          const cvect c = parse_cats(cats_s);
+          const double par = verif::from_bits(std::stoull(t.at(p++)));
+          const std::size_t na = std::stoul(t.at(p++));
+          std::vector<index_t> args;
+          for (std::size_t a = 0; a < na; ++a) args.push_back(index_t(std::stoul(t.at(p++))));
+          // as in a symbol_set, equal symbols are ONE object shared by every gene that uses it
+          // (an ephemeral constant keeps its value in the gene, not in the symbol)
+          const std::string ikey = key + "|" + cats_s;
+          symbol *sp = nullptr;
+          if (auto it = interned.find(ikey); it != interned.end())
+            sp = it->second;
+          else
+          {
+            auto s = make_symbol(key, c);
+            if (!s) { bad = true; break; }
+            sp = s.get();
+            interned[ikey] = sp;
+            b.syms.push_back(std::move(s));
+          }
+          if (sp->arity() != na || sp->category() != k % nc) { bad = true; break; }
+          gene g(std::pair<symbol *, std::vector<index_t>>(sp, args));
+          if (sp->terminal()) g.par = par;
+          cells.push_back(g);
+        }
+        if (bad) { std::cout << "bad-op\n"; continue; }
+        std::vector<gene> lastcol;
+        for (std::size_t r = 0; r < nr; ++r) lastcol.push_back(cells[r * nc + nc - 1]);
+        i_mep ind(lastcol);
+        for (std::size_t r = 0; r < nr; ++r)
+          for (std::size_t c = 0; c + 1 < nc; ++c)
+            ind = ind.replace(locus{index_t(r), category_t(c)}, cells[r * nc + c]);
+        if (ind.size() != nr || ind.categories() != nc) { std::cout << "bad-op\n"; continue; }
+        std::string out = four(ind) + " valid=" + (ind.is_valid() ? "1" : "0");
+        const std::size_t ni = p < t.size() ? std::stoul(t.at(p++)) : 0;
+        for (std::size_t k = 0; k < ni; ++k)
+        {
+          const std::size_t nv = std::stoul(t.at(p++));
+          std::vector<value_t> ex;
+          for (std::size_t j = 0; j < nv; ++j) ex.push_back(parse_val(t.at(p++)));
+          std::string r;
+          try { r = canon(run(ind, ex)); }
+          catch (const std::exception &) { r = "exc"; }
+          out += " ; " + r;
+        }
+        b.ind = ind;
+        store().push_back(std::move(b));
+        if (store().size() > 16) store().pop_front();
+        std::cout << out << "\n";
+      }
+      else if (t[0] == "team" && t.size() == 2)
+      {
+        const std::size_t k = std::stoul(t[1]);
+        if (k == 0 || k > store().size()) { std::cout << "bad-op\n"; continue; }
+        std::vector<i_mep> v;
+        for (std::size_t i = store().size() - k; i < store().size(); ++i) v.push_back(store()[i].ind);
+        const team<i_mep> tm(v);
+        std::ostringstream a, b2, c, d;
+        a << out::c_language << tm;
+        b2 << out::cpp_language << tm;
+        c << out::mql_language << tm;
+        d << out::python_language << tm;
+        std::cout << verif::hex(a.str()) << " " << verif::hex(b2.str()) << " " << verif::hex(c.str())
+                  << " " << verif::hex(d.str()) << "\n";
+      }
+      else if (t[0] == "stream")
+      {
+        if (store().empty()) { std::cout << "bad-op\n"; continue; }
+        const i_mep &ind = store().back().ind;
+        auto ss = std::make_unique<std::ostringstream>();
+        std::string out;
+        bool bad = false;
+        for (std::size_t k = 1; k < t.size() && !bad; ++k)
+        {
+          const std::string &op = t[k];
+          if (op == "c") *ss << out::c_language;
+          else if (op == "cpp") *ss << out::cpp_language;
+          else if (op == "mql") *ss << out::mql_language;
+          else if (op == "py") *ss << out::python_language;
+          else if (op == "list") *ss << out::list;
+          else if (op == "dump") *ss << out::dump;
+          else if (op == "inline") *ss << out::in_line;
+          else if (op == "tree") *ss << out::tree;
+          else if (op == "graphviz") *ss << out::graphviz;
+          else if (op == "long") *ss << out::long_form;
+          else if (op == "short") *ss << out::short_form;
+          else if (op.rfind("pf", 0) == 0 && op.size() > 2)
+            *ss << out::print_format(out::print_format_t(std::stoi(op.substr(2))));
+          else if (op == "fresh") ss = std::make_unique<std::ostringstream>();
+          else if (op == "print")
+          {
+            ss->str("");
+            const int flag = int(out::print_format_flag(*ss));
+            const bool lf = out::long_form_flag(*ss);
+            *ss << ind;
+            out += (out.empty() ? "" : " ") + std::to_string(flag) + ":" + (lf ? "1" : "0") + ":"
+                   + verif::hex(ss->str());
+          }
+          else bad = true;
+        }
+        std::cout << (bad ? std::string("bad-op") : (out.empty() ? std::string("-") : out)) << "\n";
       }
       else
         std::cout << "bad-op\n";
